@@ -38,13 +38,21 @@ func c09History(t *testing.T, idx int, seed uint64) {
 	params := map[string]interface{}{"history": idx, "connections": nconn}
 	var ops []string
 	bubble(t, "c09", params, func(cl *cleanup) {
-		w := newWorld(worldCfg{BufferSize: 16384})
+		// every third history runs under an authenticator that accepts good/pw only, so that refused
+		// CONNECTs carrying the victim's client identifier can be mixed in
+		useAuth := idx%3 == 0
+		wcfg := worldCfg{BufferSize: 16384}
+		user, pass := "", ""
+		if useAuth {
+			wcfg.Authenticator, user, pass = "vauth", "good", "pw"
+		}
+		w := newWorld(wcfg)
 		cl.add(w.shutdown)
 		fail := func(sig, desc string) {
 			out.Violation(sig, desc, map[string]interface{}{"params": params, "ops": ops})
 			dumpMemLog()
 		}
-		wit, ack := w.connectB("witness", connectOpts{Clean: true, KeepAlive: 6000})
+		wit, ack := w.connectB("witness", connectOpts{Clean: true, KeepAlive: 6000, User: user, Pass: pass})
 		if ack == nil {
 			fail("c09:connect", "witness got no CONNACK")
 			return
@@ -85,7 +93,7 @@ func c09History(t *testing.T, idx int, seed uint64) {
 			}
 			prevKA = ka
 			ops = append(ops, fmt.Sprintf("conn%d clean=%v %v ending=%s", k, clean, ws, ending))
-			o := connectOpts{ClientID: "victim", Clean: clean, KeepAlive: ka}
+			o := connectOpts{ClientID: "victim", Clean: clean, KeepAlive: ka, User: user, Pass: pass}
 			if ws.present {
 				wp := &rc.Packet{QoS: ws.qos, Retain: ws.retain, Topic: []byte(ws.topic)}
 				if ws.size > 0 {
@@ -123,6 +131,35 @@ func c09History(t *testing.T, idx int, seed uint64) {
 			if r.Bool() {
 				c.publishB("other/x", byte(r.Intn(2)), false, spec.MakePayload(uids.next(), 0, 50))
 				c.fresh()
+			}
+			// a refused CONNECT that names the victim's client identifier must change nothing
+			// (not with the injected read error: the optional traffic above may already have triggered it)
+			if useAuth && ending != "read-error" && r.Bool() {
+				io := connectOpts{ClientID: "victim", Clean: r.Bool(), KeepAlive: 600, User: []string{"evil", "good"}[r.Intn(2)], Pass: "wrong"}
+				intruderUID := uint64(0)
+				if r.Intn(3) != 0 {
+					intruderUID = uids.next()
+					io.Will = &rc.Packet{QoS: byte(r.Intn(3)), Retain: r.Intn(3) == 0, Topic: []byte("will/intruder"), Payload: spec.MakePayload(intruderUID, 0, 60)}
+				}
+				ops = append(ops, fmt.Sprintf("conn%d: refused CONNECT with the victim's client id (clean=%v, will uid %d)", k, io.Clean, intruderUID))
+				in, ia := w.connectB("intruder", io)
+				if ia != nil && ia.ReturnCode == 0 {
+					fail("c09:intruder-accepted", "a CONNECT with wrong credentials was accepted")
+					return
+				}
+				if !in.Closed() {
+					fail("c09:intruder-open", "a refused connection stays open")
+					return
+				}
+				if c.Closed() {
+					fail("c09:victim-closed-by-refused-connect", "the victim's connection was closed when a CONNECT with its client id was refused")
+					return
+				}
+				if got := publishesIn(wit.fresh()); len(got) != 0 {
+					fail("c09:will-from-refused-connect", fmt.Sprintf("the witness received %v after a refused CONNECT", got))
+					return
+				}
+				out.Count("c09.refused_connects_with_victim_id", 1)
 			}
 			// the ending
 			switch ending {
@@ -219,7 +256,7 @@ func c09History(t *testing.T, idx int, seed uint64) {
 			}
 			// retained wills are visible to a fresh subscriber
 			if r.Intn(2) == 0 || k == nconn-1 {
-				fs, fa := w.connectB(fmt.Sprintf("fresh%d", k), connectOpts{Clean: true, KeepAlive: 600})
+				fs, fa := w.connectB(fmt.Sprintf("fresh%d", k), connectOpts{Clean: true, KeepAlive: 600, User: user, Pass: pass})
 				if fa == nil {
 					fail("c09:connect", "fresh subscriber got no CONNACK")
 					return
